@@ -170,11 +170,14 @@ static int hist_core(const case_t *c, int emit)
             while (*p == ',') ++p;
             int nprocs = nplist[opi % nnp]; ++opi; ++nops;
             char key[96];
-            if (op == 'F' || op == 'R' || op == 'Q' || op == 'X') {
+            if (op == 'F' || op == 'R' || op == 'Q' || op == 'X' || op == 'P') {
+                /* P: the factors are destroyed and the matrix (new values) is factored from scratch (refact = NO) while the caller asks
+                   for the previous row permutation to be kept (usepr = YES): the two options are independent */
                 int refact = (op == 'R');
-                if (refact && !H.have_lu) continue;             /* nothing to refactor */
+                if ((refact || op == 'P') && !H.have_lu) continue;             /* nothing to refactor / no previous pivots */
                 if (!refact && H.have_lu) destroy_factors(&H);   /* a first factorization starts from scratch */
-                int usepr = refact ? arg : 0;
+                int usepr = refact ? arg : (op == 'P');
+                if (op == 'P') { ++H.valgen; new_values(&H, seed, H.valgen, arg % 2 == 0, 0); }
                 elem_t *saved = NULL; int_t zc = -1;
                 if (op == 'X') {    /* singular: one stored-zero column, restored after the call */
                     zc = (int_t)rng_int(&rng, n);
@@ -209,7 +212,7 @@ static int hist_core(const case_t *c, int emit)
                 }
                 if (!refact) { H.lwork = lwork > 0 ? lwork : 0; }
                 if (!refact) get_perm_c(ord, &H.A, H.perm_c);
-                if (refact) memcpy(H.perm_r_prev, H.perm_r, n * sizeof(int_t));
+                if (refact || op == 'P') memcpy(H.perm_r_prev, H.perm_r, n * sizeof(int_t));
                 if (H.have_ac) { if (refact) Destroy_CompCol_Permuted(&H.AC); H.have_ac = 0; }
                 StatAlloc(n, nprocs, w, relax, &H.Gstat); StatInit(n, nprocs, &H.Gstat);
                 GSTRF_INIT(nprocs, DOFACT, NOTRANS, refact ? YES : NO, w, relax, H.u, usepr ? YES : NO, 0.0, H.perm_c, H.perm_r, work, lwork, &H.A, &H.AC, &H.opt, &H.Gstat);
@@ -278,7 +281,7 @@ static int hist_core(const case_t *c, int emit)
                 snprintf(key, sizeof key, "C08|reconstruction|%c", op);
                 ld growth = 0;
                 check_reconstruction(H.Gd, &d, H.perm_r, H.perm_c, &H.W, &growth, key);
-                if (refact && usepr) {
+                if (usepr) {
                     int v = replay_pivots(H.Gd, n, H.perm_r_prev, H.perm_c, (ld)H.u);
                     if (getenv("HX_DEBUG")) {
                         fprintf(stderr, "op %ld verdict %d\nperm_c:", nops, v); for (int_t j = 0; j < n; ++j) fprintf(stderr, " %ld", (long)H.perm_c[j]);
@@ -349,6 +352,16 @@ static int hist_core(const case_t *c, int emit)
                 /* complete driver calls on a private copy (leak classes of C17): arg 1 = singular variant */
                 csc_t T = csc_clone(&H.G);
                 if (arg == 1 && n > 0) { int_t zc = (int_t)rng_int(&rng, n); for (int_t q = T.colptr[zc]; q < T.colptr[zc + 1]; ++q) T.val[q] = MKE(0, 0); }
+                if (cint(c, "escale", 0)) {      /* extreme magnitudes: every value times 2^escale (norms may overflow or underflow) */
+                    int e = (int)cint(c, "escale", 0);
+                    for (int_t q = 0; q < T.nnz; ++q) {
+#if IS_COMPLEX
+                        T.val[q].r = ldexp(T.val[q].r, e); T.val[q].i = ldexp(T.val[q].i, e);
+#else
+                        T.val[q] = (elem_t)ldexp((double)T.val[q], e);
+#endif
+                    }
+                }
                 SuperMatrix A2, L2, U2, B2, X2; memset(&L2, 0, sizeof L2); memset(&U2, 0, sizeof U2);
                 int_t *pc2 = xmalloc((n + 1) * sizeof(int_t)), *pr2 = xmalloc((n + 1) * sizeof(int_t));
                 elem_t *bb = xmalloc((n + 1) * sizeof(elem_t)), *xx = xmalloc((n + 1) * sizeof(elem_t));
@@ -375,6 +388,13 @@ static int hist_core(const case_t *c, int emit)
                     real_t *R2 = xmalloc((n + 1) * sizeof(real_t)), *C2 = xmalloc((n + 1) * sizeof(real_t)), fe[2], be[2], rpg2, rc2;
                     equed_t eq2; superlu_memusage_t mu;
                     GSSVX(nprocs, &o2, &A2, pc2, pr2, &eq2, R2, C2, &L2, &U2, &B2, &X2, &rpg2, &rc2, fe, be, &mu, &info);
+                    if (arg == 6 && (info == 0 || info == n + 1)) {
+                        /* re-use of valid factors with an A whose values are all zero (norm 0): still a legal call */
+                        int_t info3 = -999;
+                        for (int_t q = 0; q < T.nnz; ++q) T.val[q] = MKE(0, 0);
+                        o2.fact = FACTORED;
+                        GSSVX(nprocs, &o2, &A2, pc2, pr2, &eq2, R2, C2, &L2, &U2, &B2, &X2, &rpg2, &rc2, fe, be, &mu, &info3);
+                    }
                     if ((arg == 3 || arg == 4) && info == 0) {
                         int_t info3 = -999;
                         o2.fact = FACTORED; o2.trans = (trans_t)(nops % 3);
